@@ -146,6 +146,16 @@ CHECKS.update({
         ref='3/C18'),
 })
 
+CHECKS.update({
+    'C09': dict(
+        technique='property-based testing of generated conflict-arrival/delay schedules on a two-host simulated link; oracle over the newcomer\'s independently decoded trace, its perceived cache learning times and the API result',
+        text=SIM + 'owner chains X, X-2, X-3, pre-populated or empty caches, 0-150 ms one-way delays, conflicting pointers injected on a grid around the three probe instants; '
+             'probe format and 175 ms spacing, announcements only after the third probe (3 x 225 ms, complete, configured TTLs, flush bits), conflicts learned before the '
+             'third probe rejected and never announced, no spurious conflicts or skipped suffixes, no duplicate names.',
+        note='t_learn is the newcomer\'s own perception via a spy listener; a conflict within 2 ms of the third probe instant is a tie',
+        ref='3/C09'),
+})
+
 NOT_YET = {
 }
 
